@@ -32,6 +32,13 @@ def rt_instances():
         k, f = kf[ln]
         out += [RT('rt_str_%d' % ln, 'str', k, f, ln), RT('rt_bytes_%d' % ln, 'bytes', kf[5 - ln][0], kf[5 - ln][1], ln, tiers=QT if ln < 4 else T),
                 RT('rt_err_%d' % ln, 'err', k, 1 - f, ln, tiers=QT if ln < 4 else T)]
+    # non-ASCII strings: UTF-8 byte length != UTF-16 unit count (shape = cdef VP_U8PAT, see bytes_models.c); digits least significant first
+    for nm, ln, pat, k, f, tiers in (('e_acute', 1, 2, 2, 1, QT), ('euro', 1, 3, 0, 1, QT), ('andre', 5, 21111, 2, 0, QT), ('mix23', 2, 32, 1, 1, QT),
+                                     ('aaa2', 3, 222, 0, 0, T), ('a3a3', 4, 3131, 2, 1, T), ('u8x3', 8, 33333333, 0, 0, T), ('e2', 2, 22, 3, 1, T)):
+        out.append(dict(RT('rt_utf8_%s' % nm, 'str', k, f, ln, tiers=tiers), bound=RT_BOUND % ('str', k, f, ln) + '; shape %d (1: U+0001..7F, 2: U+00C0..FF, 3: U+2000..2FFF per unit)' % pat))
+        out[-1]['cdefs'] = dict(out[-1]['cdefs'], VP_U8PAT=pat)
+    out.append(dict(RT('rt_utf8_err', 'err', 2, 1, 3, tiers=QT), bound=RT_BOUND % ('err', 2, 1, 3) + '; reason phrase of shape 212'))
+    out[-1]['cdefs'] = dict(out[-1]['cdefs'], VP_U8PAT=212)
     # thorough: remaining key/fingerprint combinations and the address attributes not in quick
     for grp in ('ints', 'addr4', 'addr4x', 'addr6', 'addr6b', 'addr6x'):
         for k in (0, 2):
@@ -117,7 +124,8 @@ SPEC = dict(
         'HMAC: key lengths 0, 63, 64, 65 (SHA-1) and 64, 65 (MD5) in quick; 1, 2, 16, 20, 32, 62, 66, 67, 70, 100, 128, 300 more in thorough; key and text bytes symbolic, text 0..4 bytes',
     ],
     assumptions=[
-        'strings are ASCII without NUL (QString::fromUtf8(QByteArray) stops at the first NUL; the UTF-8 codec is Qt\'s and is modelled as identity on ASCII)',
+        'strings: ASCII without NUL, or (rt_utf8_*) a per-instance shape of 1-, 2- and 3-byte characters (U+00C0..FF, U+2000..2FFF) with symbolic units inside the shape; '
+        'the UTF-8 codec is Qt\'s and is modelled as the real mapping restricted to these shapes (QString::fromUtf8(QByteArray) stops at the first NUL)',
         'setId() is given 12 bytes (Q_ASSERT in the setter); ICE-CONTROLLING/ICE-CONTROLLED tie-breakers are 8 bytes (RFC 5245) and not both set',
         'an address attribute is "present" iff its port is non-zero (encode\'s own convention); ERROR-CODE is in 300..699 (RFC 5389 15.6)',
         'HMAC-SHA1 and CRC-32 inside encode/decode are cut at QXmppUtils::generateHmacSha1/generateCrc32 and replaced by uninterpreted, functionally consistent functions; '
@@ -125,7 +133,7 @@ SPEC = dict(
     ],
     outside=[
         'TURN allocation logic, toString() dumps',
-        'strings longer than 8 bytes, non-ASCII strings, strings with embedded NUL (these do NOT round-trip: decode truncates at the NUL)',
+        'strings longer than 8 units, characters outside U+0001..7F / U+00C0..FF / U+2000..2FFF (other 2-/3-byte blocks, surrogate pairs), strings with embedded NUL (these do NOT round-trip: decode truncates at the NUL)',
         'bit-level rejection ("flipping any bit makes decoding fail") is claimed only structurally: acceptance <=> the 20 bytes equal HMAC(key, adjusted prefix) for an uninterpreted HMAC; '
         'collision resistance of SHA-1 is not something a solver establishes',
         'symbolic length fields in front of further attributes are covered only by the arbitrary-datagram instances (<= 28 bytes)',
